@@ -16,6 +16,7 @@ import (
 	eth2p0 "github.com/attestantio/go-eth2-client/spec/phase0"
 
 	"github.com/obolnetwork/charon/app/eth2wrap"
+	"github.com/obolnetwork/charon/verifrt"
 )
 
 // Chain holds what all nodes' beacon views share.
@@ -97,8 +98,19 @@ type Client struct {
 	// Vals returns the active validators (used by the validator API's index -> pubkey lookups).
 	Vals func() eth2wrap.ActiveValidators
 
+	// Latency, if set, is the simulated response time of an endpoint ("spec", "domain").
+	Latency func(method string) time.Duration
+
 	mu    sync.Mutex
 	Calls map[string]int
+}
+
+func (c *Client) lag(method string) {
+	if c.Latency != nil {
+		if d := c.Latency(method); d > 0 {
+			verifrt.Sleep(d)
+		}
+	}
 }
 
 func (c *Client) count(k string) {
@@ -123,6 +135,7 @@ func (c *Client) SetValidatorCache(func(context.Context) (eth2wrap.ActiveValidat
 
 func (c *Client) Spec(context.Context, *eth2api.SpecOpts) (*eth2api.Response[map[string]any], error) {
 	c.count("spec")
+	c.lag("spec")
 	m := map[string]any{
 		"SECONDS_PER_SLOT": c.Chain.SlotDuration,
 		"SLOTS_PER_EPOCH":  c.Chain.SlotsPerEpoch,
@@ -146,6 +159,7 @@ func (c *Client) Genesis(context.Context, *eth2api.GenesisOpts) (*eth2api.Respon
 }
 
 func (c *Client) Domain(_ context.Context, dt eth2p0.DomainType, epoch eth2p0.Epoch) (eth2p0.Domain, error) {
+	c.lag("domain")
 	return ComputeDomain(dt, c.Chain.VersionAt(epoch), c.Chain.GenesisValidatorsRoot), nil
 }
 
